@@ -217,6 +217,9 @@ package node
 //@   loop 0 invariant[C20.replay.stop] forall j int :: 0 <= j && j <= $i ==> req.Messages[j].Event != "event_signing_start"
 //@   assert@call processMessage[C20.replay.stop] forall j int :: 0 <= j && j <= $i + 1 ==> loc(req).Messages[j].Event != "event_signing_start"
 //@   loop 1 invariant $mayWrite && s.SkipCommKeysVerification
+// reinitialisation fails only if the file does not decode or a store / pool / hash step fails - never because one of
+// the replayed messages is refused (a recorded log contains re-delivered messages)
+//@   erroronly[C20.replay.tolerant] Unmarshal IsExist Marshal CalcStartReInitDKGMessageHash PutOperation GetFSMInstance Dump SaveFSM
 //@   ensures[C09.skip.restore] s.SkipCommKeysVerification == old(s.SkipCommKeysVerification)
 //@   ensures $mayWrite
 //@   ensures unchanged("BaseNodeService.userName", "BaseNodeService.state", "BaseNodeService.storage", "BaseNodeService.ctx")
